@@ -519,6 +519,20 @@ class Arr(object):
             raise ValueError("can only convert an array of size 1 to a Python scalar")
         return _plain(a.buf[a.offs[0]])
 
+    def __getattr__(self, name):
+        # any ndarray method / attribute that is not modelled: concretise and delegate to real numpy
+        if name.startswith("_") or not hasattr(_rnp.ndarray, name):
+            raise AttributeError(name)
+        DELEGATED["ndarray." + name] = DELEGATED.get("ndarray." + name, 0) + 1
+        real = self.to_numpy()
+        target = getattr(real, name)
+        if callable(target):
+            def method(*a, **k):
+                with _rnp.errstate(all="ignore"):
+                    return _wrap(target(*[_real(x) for x in a], **{kk: _real(v) for kk, v in k.items()}))
+            return method
+        return _wrap(target)
+
     # ------------------------------------------------------------------ indexing
     def _row(self, i):
         c = self.shape[1]
